@@ -92,7 +92,9 @@ fn main() {
     let n = 300 * a.scale;
     for li in 0..n {
         let nr = r.range(1, 8);
-        let mut lines: Vec<String> = (0..nr).map(|_| gen::rule(&mut r, li % 4 == 0)).collect();
+        // every third list from the list grammar (sibling groups with one-respect twins, rules dispatched
+        // per source domain incl. bare public suffixes), the others rule by rule
+        let mut lines: Vec<String> = if li % 3 == 1 { gen::rule_list(&mut r, nr, li % 4 == 0) } else { (0..nr).map(|_| gen::rule(&mut r, li % 4 == 0)).collect() };
         let mut cancels = false;
         if r.chance(2, 3) {
             let base = lines[r.below(lines.len())].clone();
@@ -238,7 +240,9 @@ fn main() {
         }
         // y, y$badfilter: the pair must change nothing relative to the list without them
         {
-            let y = gen::rule(&mut r, false);
+            // (half of the time with a modifier: y$redirect=.. blocks as well, and its $badfilter twin must cancel it)
+            let with_mod = r.chance(1, 2);
+            let y = gen::rule(&mut r, with_mod);
             if let Some(yf) = parse_net(&y) {
                 // (if the list already holds a twin of y, y$badfilter rightly cancels that one too: skip)
                 if !yf.is_badfilter() && !rules.iter().any(|f| !f.is_badfilter() && f.get_id() == yf.get_id()) {
